@@ -17,6 +17,7 @@
 #include <sys/wait.h>
 #include <sys/user.h>
 #include <sys/types.h>
+#include <sys/syscall.h>
 
 #define MAXP 256
 static pid_t pids[MAXP]; static int inSys[MAXP]; static int np;
@@ -26,7 +27,7 @@ static void drop(pid_t p) { for (int i = 0; i < np; i++) if (pids[i] == p) { pid
 int main(int argc, char** argv)
 {
     if (argc < 4) { fprintf(stderr, "usage: killat count|kill <k>|int <k> -- cmd...\n"); return 2; }
-    int mode = !strcmp(argv[1], "count") ? 0 : !strcmp(argv[1], "kill") ? 1 : !strcmp(argv[1], "int") ? 2 : -1;
+    int mode = !strcmp(argv[1], "count") ? 0 : !strcmp(argv[1], "kill") ? 1 : !strcmp(argv[1], "int") ? 2 : !strcmp(argv[1], "intany") ? 3 : -1;
     long k = 0; int ai = 2;
     if (mode < 0) return 2;
     if (mode) { k = atol(argv[2]); ai = 3; }
@@ -44,6 +45,8 @@ int main(int argc, char** argv)
     ptrace(PTRACE_SETOPTIONS, child, 0, PTRACE_O_TRACESYSGOOD | PTRACE_O_TRACECLONE | PTRACE_O_TRACEFORK | PTRACE_O_TRACEVFORK | PTRACE_O_EXITKILL | PTRACE_O_TRACEEXEC);
     find(child);
     ptrace(PTRACE_SYSCALL, child, 0, 0);
+    FILE* const logf = (mode == 0 && getenv("KILLAT_LOG")) ? fopen(getenv("KILLAT_LOG"), "w") : NULL;    /* index, syscall number, first argument of every syscall entry */
+    int nSigintActions = 0, creatAfterLastSigaction = 0;
     long count = 0; int mainStatus = -1; int done = 0; long actedAt = 0; long sysno = -1; int sawExec = 0;
     while (!done) {
         pid_t const p = waitpid(-1, &st, __WALL);
@@ -55,11 +58,19 @@ int main(int argc, char** argv)
             if (idx >= 0) inSys[idx] = !inSys[idx];
             if (idx >= 0 && inSys[idx] && sawExec) {       /* syscall entry (after the exec of the command) */
                 count++;
+                {   struct user_regs_struct lr;
+                    if (ptrace(PTRACE_GETREGS, p, 0, &lr) == 0) {
+                        if (logf) fprintf(logf, "%ld %lld %lld\n", count, (long long)lr.orig_rax, (long long)lr.rdi);
+                        if (!actedAt) {      /* what happened up to and including the syscall at which the signal is injected (it completes before the signal is delivered), in this very run */
+                            if (lr.orig_rax == SYS_rt_sigaction && lr.rdi == SIGINT) { nSigintActions++; creatAfterLastSigaction = 0; }
+                            if (lr.orig_rax == SYS_openat && (lr.rdx & O_CREAT)) creatAfterLastSigaction = 1;
+                            if (lr.orig_rax == SYS_open && (lr.rsi & O_CREAT)) creatAfterLastSigaction = 1; } } }
                 if (mode && count == k && !actedAt) {
                     struct user_regs_struct regs; if (ptrace(PTRACE_GETREGS, p, 0, &regs) == 0) sysno = (long)regs.orig_rax;
                     actedAt = count;
                     if (mode == 1) { for (int i = 0; i < np; i++) kill(pids[i], SIGKILL); }
-                    else kill(child, SIGINT);
+                    else if (mode == 2) syscall(SYS_tgkill, child, child, SIGINT);   /* thread-directed at the main thread: where the kernel delivers a terminal ^C when the main thread is eligible */
+                    else kill(child, SIGINT);                                  /* process-directed while the stopped thread is not eligible: the handler runs on another thread */
                 }
             }
         } else if ((st >> 8) == (SIGTRAP | (PTRACE_EVENT_EXEC << 8))) { sawExec = 1; if (idx >= 0) inSys[idx] = 0; }
@@ -72,8 +83,9 @@ int main(int argc, char** argv)
     if (mainStatus == -1) snprintf(stbuf, sizeof stbuf, "unknown");
     else if (WIFEXITED(mainStatus)) snprintf(stbuf, sizeof stbuf, "exit %d", WEXITSTATUS(mainStatus));
     else snprintf(stbuf, sizeof stbuf, "signal %d", WTERMSIG(mainStatus));
+    if (logf) fclose(logf);
     if (mode == 0) printf("N=%ld status=%s\n", count, stbuf);
-    else if (actedAt) printf("%s=%ld sysno=%ld status=%s\n", mode == 1 ? "killed_at" : "int_at", actedAt, sysno, stbuf);
+    else if (actedAt) printf("%s=%ld sysno=%ld status=%s sigint_actions_before=%d creat_after_last_sigint_action=%d\n", mode == 1 ? "killed_at" : "int_at", actedAt, sysno, stbuf, nSigintActions, creatAfterLastSigaction);
     else printf("finished N=%ld status=%s\n", count, stbuf);
     return 0;
 }
